@@ -339,7 +339,14 @@ def _sym_blocks(fn):
 
 def _enum_blocks(fn):
     loops = [l for l in walk_no_nested(fn) if isinstance(l, ast.For)]
-    defs = [(s.targets[0].id, s.value) for s in loops[0].body if isinstance(s, ast.Assign) and isinstance(s.targets[0], ast.Name)]
+    defs = []
+    for s in loops[0].body:
+        if isinstance(s, ast.Assign) and isinstance(s.targets[0], ast.Name):
+            defs.append((s.targets[0].id, s.value))
+        elif isinstance(s, ast.Assign) and isinstance(s.targets[0], ast.Tuple) and isinstance(s.value, ast.Call) and ast.unparse(s.value.func) == 'divmod' and len(s.value.args) == 2 and len(s.targets[0].elts) == 2 and all(isinstance(e, ast.Name) for e in s.targets[0].elts):
+            a, b = s.value.args
+            defs.append((s.targets[0].elts[0].id, ast.BinOp(left=a, op=ast.FloorDiv(), right=b)))
+            defs.append((s.targets[0].elts[1].id, ast.BinOp(left=a, op=ast.Mod(), right=b)))
     names = [n for n, _ in defs]
     for need in ('nLoc', 'iLoc'):
         if need not in names:
